@@ -24,24 +24,6 @@ theorem EvOK.roomNonempty {e : Event} (h : EvOK e) : e.roomID ≠ [] := by
   rw [hn]
   rfl
 
-/-- every auth path that starts at `e` and continues through events of `m` satisfying `q` has fewer than `d` events
-    (for `d` = size of `m` + 2 this says: no such path runs into a cycle) -/
-def PathsShorter (m : List Event) (q : Event → Bool) : Nat → Event → Prop
-  | 0, _ => False
-  | d + 1, e => ∀ id ∈ e.authEventIDs, ∀ ev, findByID m id = some ev → q ev = true → PathsShorter m q d ev
-
-/-- a rank that strictly decreases along the auth edges into `m` bounds the paths -/
-theorem pathsShorter_of_rank (m : List Event) (q : Event → Bool) (rank : ID → Nat)
-    (hr : ∀ e : Event, ∀ id ∈ e.authEventIDs, ∀ ev, findByID m id = some ev → rank ev.eventID < rank e.eventID) :
-    ∀ (d : Nat) (e : Event), rank e.eventID < d → PathsShorter m q d e := by
-  intro d
-  induction d with
-  | zero => intro e h; cases h
-  | succ d ih =>
-    intro e h
-    intro id hid ev hev _
-    exact ih ev (by have := hr e id hid ev hev; omega)
-
 /-! ## Leaf sites -/
 
 theorem roomIDSite_ok {e : Event} (h : EvOK e) : roomIDSite e = .ok () := by
@@ -77,71 +59,169 @@ theorem forSites_ok (f : Event → Except Err Unit) {l : List Event} (h : ∀ e 
     simp only [forSites, h e List.mem_cons_self]
     exact ih (fun x hx => h x (List.mem_cons_of_mem _ hx))
 
-/-! ## The recursions -/
+/-! ## The recursions: the fuel is never exhausted, whatever the auth graph (cyclic or not) -/
 
-theorem fcs_some (m : List Event) : ∀ (d : Nat) (e : Event), PathsShorter m (fun _ => true) d e →
-    ∀ vis, ∃ v, fcs m d vis e = some v := by
+theorem mem_insertID {s : List ID} {id x : ID} : x ∈ insertID s id ↔ x ∈ s ∨ x = id := by
+  unfold insertID
+  split
+  · rename_i h
+    have hmem : id ∈ s := List.contains_iff_mem.mp h
+    constructor
+    · exact Or.inl
+    · rintro (h1 | rfl)
+      · exact h1
+      · exact hmem
+  · simp
+
+/-- events of the conflicted map whose ID is not marked yet -/
+def unmarked (m : List Event) (vis : List ID) : Nat := m.countP (fun e => !vis.contains e.eventID)
+
+theorem countP_lt_of_witness {α : Type} {p q : α → Bool} : ∀ (l : List α), (∀ x ∈ l, p x = true → q x = true) →
+    (∃ x ∈ l, q x = true ∧ p x = false) → l.countP p < l.countP q := by
+  intro l
+  induction l with
+  | nil => intro _ ⟨x, hx, _⟩; cases hx
+  | cons y l ih =>
+    intro himp ⟨x, hx, hq, hp⟩
+    have hle : l.countP p ≤ l.countP q :=
+      List.countP_mono_left (fun z hz => himp z (List.mem_cons_of_mem _ hz))
+    rw [List.countP_cons, List.countP_cons]
+    rcases List.mem_cons.mp hx with rfl | hxl
+    · simp only [hq, hp, if_true, Bool.false_eq_true, if_false]
+      omega
+    · have hlt := ih (fun z hz => himp z (List.mem_cons_of_mem _ hz)) ⟨x, hxl, hq, hp⟩
+      have hy : (if p y = true then 1 else 0) ≤ (if q y = true then 1 else 0) := by
+        by_cases hpy : p y = true
+        · rw [if_pos hpy, if_pos (himp y List.mem_cons_self hpy)]; exact Nat.le_refl _
+        · rw [if_neg hpy]; exact Nat.zero_le _
+      omega
+
+theorem unmarked_mono {m : List Event} {a b : List ID} (h : ∀ x ∈ a, x ∈ b) : unmarked m b ≤ unmarked m a := by
+  unfold unmarked
+  apply List.countP_mono_left
+  intro e _ he
+  cases hc : a.contains e.eventID with
+  | false => rfl
+  | true =>
+    have : b.contains e.eventID = true := List.contains_iff_mem.mpr (h _ (List.contains_iff_mem.mp hc))
+    rw [this] at he
+    cases he
+
+/-- marking the ID of an event of the map that was not marked leaves strictly fewer unmarked events -/
+theorem unmarked_insert_lt {m : List Event} {vis : List ID} {id : ID} {ev : Event} (hf : findByID m id = some ev)
+    (hv : vis.contains id = false) : unmarked m (insertID vis id) < unmarked m vis := by
+  obtain ⟨hm, hid⟩ := findByID_some hf
+  unfold unmarked
+  apply countP_lt_of_witness
+  · intro e _ he
+    cases hc : vis.contains e.eventID with
+    | false => rfl
+    | true =>
+      have : (insertID vis id).contains e.eventID = true :=
+        List.contains_iff_mem.mpr (mem_insertID.mpr (Or.inl (List.contains_iff_mem.mp hc)))
+      rw [this] at he
+      cases he
+  · refine ⟨ev, hm, ?_, ?_⟩
+    · rw [hid, hv]; rfl
+    · have : (insertID vis id).contains ev.eventID = true :=
+        List.contains_iff_mem.mpr (mem_insertID.mpr (Or.inr hid))
+      rw [this]; rfl
+
+/-- **`fullControlSet` returns for every input**: each descent marks one more event of the conflicted map first, so a
+    recursion budget larger than the number of unmarked conflicted events is never used up. -/
+theorem fcs_some (m : List Event) : ∀ (d : Nat) (vis : List ID) (e : Event), unmarked m vis < d →
+    ∃ v, fcs m d vis e = some v ∧ ∀ x ∈ vis, x ∈ v := by
   intro d
   induction d with
-  | zero => intro e h; cases h
+  | zero => intro vis e h; omega
   | succ d ih =>
-    intro e h vis
+    intro vis e h
     simp only [fcs]
-    suffices H : ∀ (ids : List ID), (∀ id ∈ ids, id ∈ e.authEventIDs) → ∀ vis : List ID, ∃ v,
+    suffices H : ∀ (ids : List ID) (vis' : List ID), (∀ x ∈ vis, x ∈ vis') → ∃ v,
         ids.foldlM (fun (vis : List ID) id =>
           if vis.contains id then some vis
           else match findByID m id with
-            | some ev => (fcs m d vis ev).map (fun v => insertID v id)
-            | none => some (insertID vis id)) vis = some v from H _ (fun _ hid => hid) vis
+            | some ev => fcs m d (insertID vis id) ev
+            | none => some (insertID vis id)) vis' = some v ∧ ∀ x ∈ vis, x ∈ v from H _ vis (fun _ hx => hx)
     intro ids
     induction ids with
-    | nil => intro _ vis; exact ⟨vis, rfl⟩
+    | nil => intro vis' hsub; exact ⟨vis', rfl, hsub⟩
     | cons id rest ihr =>
-      intro hsub vis
+      intro vis' hsub
       simp only [List.foldlM_cons]
-      have hrest := ihr (fun x hx => hsub x (List.mem_cons_of_mem _ hx))
       split
-      · simp only [Option.bind_eq_bind, Option.bind_some]; exact hrest vis
-      · split
+      · simp only [Option.bind_eq_bind, Option.bind_some]; exact ihr vis' hsub
+      · rename_i hc
+        have hc' : vis'.contains id = false := by simpa using hc
+        split
         · rename_i ev hev
-          obtain ⟨v, hv⟩ := ih ev (h id (hsub id List.mem_cons_self) ev hev rfl) vis
+          have hlt : unmarked m (insertID vis' id) < d := by
+            have h1 := unmarked_insert_lt hev hc'
+            have h2 := unmarked_mono (m := m) hsub
+            omega
+          obtain ⟨v, hv, hvsub⟩ := ih (insertID vis' id) ev hlt
           rw [hv]
-          simp only [Option.map_some, Option.bind_eq_bind, Option.bind_some]
-          exact hrest _
-        · simp only [Option.bind_eq_bind, Option.bind_some]; exact hrest _
+          simp only [Option.bind_eq_bind, Option.bind_some]
+          exact ihr v (fun x hx => hvsub x (mem_insertID.mpr (Or.inl (hsub x hx))))
+        · simp only [Option.bind_eq_bind, Option.bind_some]
+          exact ihr _ (fun x hx => mem_insertID.mpr (Or.inl (hsub x hx)))
 
-theorem controlSetSite_ok {m roots : List Event} (h : ∀ r ∈ roots, PathsShorter m (fun _ => true) (m.length + 2) r) :
-    controlSetSite m roots = .ok () := by
+theorem unmarked_le_length (m : List Event) (vis : List ID) : unmarked m vis ≤ m.length := List.countP_le_length
+
+theorem controlSetSite_ok (m roots : List Event) : controlSetSite m roots = .ok () := by
   unfold controlSetSite
-  suffices H : ∀ (rs : List Event), (∀ r ∈ rs, r ∈ roots) → ∀ vis : List ID, ∃ v,
+  suffices H : ∀ (rs : List Event) (vis : List ID), ∃ v,
       rs.foldlM (fun vis p => fcs m (m.length + 2) vis p) vis = some v by
-    obtain ⟨v, hv⟩ := H roots (fun _ hr => hr) []
+    obtain ⟨v, hv⟩ := H roots []
     rw [hv]
   intro rs
   induction rs with
-  | nil => intro _ vis; exact ⟨vis, rfl⟩
+  | nil => intro vis; exact ⟨vis, rfl⟩
   | cons r rest ih =>
-    intro hsub vis
+    intro vis
     simp only [List.foldlM_cons]
-    obtain ⟨v, hv⟩ := fcs_some m _ r (h r (hsub r List.mem_cons_self)) vis
+    obtain ⟨v, hv, _⟩ := fcs_some m (m.length + 2) vis r (by have := unmarked_le_length m vis; omega)
     rw [hv]
     simp only [Option.bind_eq_bind, Option.bind_some]
-    exact ih (fun x hx => hsub x (List.mem_cons_of_mem _ hx)) v
+    exact ih v
 
-theorem mainlineIterP_some (am : List Event) : ∀ (d : Nat) (e : Event), PathsShorter am isPLEvent d e →
-    ∀ acc, ∃ r, mainlineIterP am d e acc = some r := by
-  intro d
-  induction d with
-  | zero => intro e h; cases h
-  | succ d ih =>
-    intro e h acc
+/-- the path of a mainline recursion: distinct IDs of events of the auth map -/
+structure PathInv (am : List Event) (path : List ID) : Prop where
+  nodup : path.Nodup
+  sub : ∀ id ∈ path, id ∈ am.map (·.eventID)
+
+theorem PathInv.nil (am : List Event) : PathInv am [] := ⟨List.nodup_nil, fun _ h => by cases h⟩
+
+theorem PathInv.length_le {am : List Event} {path : List ID} (h : PathInv am path) : path.length ≤ am.length := by
+  have := List.Nodup.length_le_of_subset h.nodup (fun x hx => h.sub x hx)
+  simpa using this
+
+theorem PathInv.cons {am : List Event} {path : List ID} (h : PathInv am path) {p : Event} (hp : p ∈ am)
+    (hc : path.contains p.eventID = false) : PathInv am (p.eventID :: path) := by
+  refine ⟨List.nodup_cons.mpr ⟨fun hm => ?_, h.nodup⟩, ?_⟩
+  · rw [List.contains_iff_mem.mpr hm] at hc; cases hc
+  · intro id hid
+    rcases List.mem_cons.mp hid with rfl | hid
+    · exact List.mem_map.mpr ⟨p, hp, rfl⟩
+    · exact h.sub id hid
+
+/-- **`createPowerLevelMainline`'s iterator returns for every input**: it never descends into an event it is inside
+    of, so the events it is inside of are distinct events of the auth map. -/
+theorem mainlineIterP_some (am : List Event) : ∀ (fuel : Nat) (path : List ID) (e : Event), PathInv am path →
+    am.length + 1 ≤ fuel + path.length → ∀ acc, ∃ r, mainlineIterP am fuel path e acc = some r := by
+  intro fuel
+  induction fuel with
+  | zero => intro path e hinv hlen; have := hinv.length_le; omega
+  | succ fuel ih =>
+    intro path e hinv hlen acc
     simp only [mainlineIterP]
-    suffices H : ∀ (ps : List Event), (∀ p ∈ ps, ∃ id ∈ e.authEventIDs, findByID am id = some p) → ∀ a : List Event, ∃ r,
-        ps.foldlM (fun a p => if isPLEvent p then mainlineIterP am d p a else some a) a = some r by
+    suffices H : ∀ (ps : List Event), (∀ p ∈ ps, p ∈ am) → ∀ a : List Event, ∃ r,
+        ps.foldlM (fun a p => if isPLEvent p && !path.contains p.eventID then mainlineIterP am fuel (p.eventID :: path) p a
+          else some a) a = some r by
       apply H
       intro p hp
-      obtain ⟨id, hid, hf⟩ := List.mem_filterMap.mp hp
-      exact ⟨id, hid, hf⟩
+      obtain ⟨id, _, hf⟩ := List.mem_filterMap.mp hp
+      exact (findByID_some hf).1
     intro ps
     induction ps with
     | nil => intro _ a; exact ⟨a, rfl⟩
@@ -151,37 +231,41 @@ theorem mainlineIterP_some (am : List Event) : ∀ (d : Nat) (e : Event), PathsS
       have hrest := ihr (fun x hx => hsub x (List.mem_cons_of_mem _ hx))
       split
       · rename_i hp
-        obtain ⟨id, hid, hf⟩ := hsub p List.mem_cons_self
-        obtain ⟨r, hr⟩ := ih p (h id hid p hf hp) a
+        have hc : path.contains p.eventID = false := by
+          cases hcc : path.contains p.eventID with
+          | false => rfl
+          | true => rw [hcc] at hp; simp at hp
+        obtain ⟨r, hr⟩ := ih (p.eventID :: path) p (hinv.cons (hsub p List.mem_cons_self) hc)
+          (by simp only [List.length_cons]; omega) a
         rw [hr]
         simp only [Option.bind_eq_bind, Option.bind_some]
         exact hrest r
       · simp only [Option.bind_eq_bind, Option.bind_some]; exact hrest a
 
-theorem createMainlineP_ok {am : List Event} {o : Option Event}
-    (h : ∀ pl, o = some pl → PathsShorter am isPLEvent (am.length + 2) pl) : ∃ m, createMainlineP am o = .ok m := by
+theorem createMainlineP_ok (am : List Event) (o : Option Event) : ∃ m, createMainlineP am o = .ok m := by
   unfold createMainlineP
   cases o with
   | none => exact ⟨_, rfl⟩
   | some pl =>
-    obtain ⟨r, hr⟩ := mainlineIterP_some am _ pl (h pl rfl) []
+    obtain ⟨r, hr⟩ := mainlineIterP_some am (am.length + 2) [] pl (PathInv.nil am) (by simp only [List.length_nil]; omega) []
     simp only [hr]
     exact ⟨_, rfl⟩
 
-theorem firstMainlineP_some (am ml : List Event) : ∀ (d : Nat) (e : Event), PathsShorter am isPLEvent d e →
-    ∀ st, ∃ r, firstMainlineP am ml d e st = some r := by
-  intro d
-  induction d with
-  | zero => intro e h; cases h
-  | succ d ih =>
-    intro e h st
+/-- **`getFirstPowerLevelMainlineEvent`'s iterator returns for every input** (same argument) -/
+theorem firstMainlineP_some (am ml : List Event) : ∀ (fuel : Nat) (path : List ID) (e : Event), PathInv am path →
+    am.length + 1 ≤ fuel + path.length → ∀ st, ∃ r, firstMainlineP am ml fuel path e st = some r := by
+  intro fuel
+  induction fuel with
+  | zero => intro path e hinv hlen; have := hinv.length_le; omega
+  | succ fuel ih =>
+    intro path e hinv hlen st
     rw [firstMainlineP.eq_2]
-    suffices H : ∀ (ps : List Event), (∀ p ∈ ps, ∃ id ∈ e.authEventIDs, findByID am id = some p) → ∀ st : Nat × Nat, ∃ r,
-        firstMainlineP.go am ml d ps st = some r by
+    suffices H : ∀ (ps : List Event), (∀ p ∈ ps, p ∈ am) → ∀ st : Nat × Nat, ∃ r,
+        firstMainlineP.go am ml fuel path ps st = some r by
       apply H
       intro p hp
-      obtain ⟨id, hid, hf⟩ := List.mem_filterMap.mp hp
-      exact ⟨id, hid, hf⟩
+      obtain ⟨id, _, hf⟩ := List.mem_filterMap.mp hp
+      exact (findByID_some hf).1
     intro ps
     induction ps with
     | nil => intro _ st; rw [firstMainlineP.go.eq_1]; exact ⟨st, rfl⟩
@@ -191,17 +275,18 @@ theorem firstMainlineP_some (am ml : List Event) : ∀ (d : Nat) (e : Event), Pa
       have hrest := ihr (fun x hx => hsub x (List.mem_cons_of_mem _ hx))
       split
       · exact hrest st
-      · rename_i hp
-        split
+      · split
         · exact ⟨_, rfl⟩
-        · obtain ⟨id, hid, hf⟩ := hsub p List.mem_cons_self
-          have hpl : isPLEvent p = true := by simpa using hp
-          obtain ⟨r, hr⟩ := ih p (h id hid p hf hpl) (st.1, st.2 + 1)
-          rw [hr]
-          exact hrest r
+        · split
+          · exact hrest st
+          · rename_i hc
+            have hc' : path.contains p.eventID = false := by simpa using hc
+            obtain ⟨r, hr⟩ := ih (p.eventID :: path) p (hinv.cons (hsub p List.mem_cons_self) hc')
+              (by simp only [List.length_cons]; omega) (st.1, st.2 + 1)
+            rw [hr]
+            exact hrest r
 
-theorem mainlineOrderingP_ok {am ml evs : List Event} (h : ∀ e ∈ evs, PathsShorter am isPLEvent (am.length + 2) e) :
-    ∃ r, mainlineOrderingP am ml evs = .ok r := by
+theorem mainlineOrderingP_ok (am ml evs : List Event) : ∃ r, mainlineOrderingP am ml evs = .ok r := by
   unfold mainlineOrderingP
   suffices H : ∃ ks, otherKeysP am ml evs = .ok ks by
     obtain ⟨ks, hk⟩ := H
@@ -210,8 +295,8 @@ theorem mainlineOrderingP_ok {am ml evs : List Event} (h : ∀ e ∈ evs, PathsS
   induction evs with
   | nil => exact ⟨[], rfl⟩
   | cons e rest ih =>
-    obtain ⟨ks, hks⟩ := ih (fun x hx => h x (List.mem_cons_of_mem _ hx))
-    obtain ⟨r, hr⟩ := firstMainlineP_some am ml _ e (h e List.mem_cons_self) (0, 0)
+    obtain ⟨ks, hks⟩ := ih
+    obtain ⟨r, hr⟩ := firstMainlineP_some am ml (am.length + 2) [] e (PathInv.nil am) (by simp only [List.length_nil]; omega) (0, 0)
     simp only [otherKeysP, otherKeyP, hr, hks]
     exact ⟨_, rfl⟩
 
@@ -290,9 +375,7 @@ theorem get_mem {s : State} {t k : Bytes} {e : Event} (h : s.get t k = some e) :
     exact ⟨x, List.mem_of_find?_eq_some hf, h⟩
 
 theorem tailP_ok {am : List Event} {rej : List ID} {ce : Option Event} {s1 : State} {ces os : List Event}
-    (hce : ∀ e ∈ ces, EvOK e) (hos : ∀ e ∈ os, EvOK e) (hop : ∀ e ∈ os, PathsShorter am isPLEvent (am.length + 2) e)
-    (hpl : ∀ pl, (authAndApply am rej s1 (reverseTopoAuth am ce ces)).get b!"m.room.power_levels" [] = some pl →
-      PathsShorter am isPLEvent (am.length + 2) pl) :
+    (hce : ∀ e ∈ ces, EvOK e) (hos : ∀ e ∈ os, EvOK e) :
     tailP am rej ce s1 ces os = .ok (tail am rej ce s1 ces os) := by
   have hex : ∃ r, tailP am rej ce s1 ces os = .ok r := by
     unfold tailP
@@ -300,10 +383,11 @@ theorem tailP_ok {am : List Event} {rej : List ID} {ce : Option Event} {s1 : Sta
     simp only
     rw [authAndApplyP_ok am rej _ (fun e he => hce e (reverseTopoAuth_subset _ _ he))]
     simp only
-    obtain ⟨m, hm⟩ := createMainlineP_ok hpl
+    obtain ⟨m, hm⟩ := createMainlineP_ok am
+      ((authAndApply am rej s1 (reverseTopoAuth am ce ces)).get b!"m.room.power_levels" [])
     rw [hm]
     simp only
-    obtain ⟨r, hr⟩ := mainlineOrderingP_ok (ml := m) hop
+    obtain ⟨r, hr⟩ := mainlineOrderingP_ok am m os
     rw [hr]
     simp only
     have hr' := mainlineOrderingP_eq hr
@@ -315,17 +399,11 @@ theorem tailP_ok {am : List Event} {rej : List ID} {ce : Option Event} {s1 : Sta
 /-! ## (b) `ResolveStateConflictsV2New` -/
 
 /-- The precondition of `resolveV2NewP_ok`.  `two` is the caller's (the number of state sets is not remote data);
-    `ev` is what parsing establishes for every event; `control` / `power` hold for every acyclic auth graph (and for
-    every input whose event IDs are hashes of the events, where a cycle would need a hash collision) — but NOT for
-    all inputs in room versions 1 and 2, whose event IDs are chosen by the sender. -/
+    `ev` is what parsing establishes for every event.  Nothing is asked of the auth graph: it may be cyclic (room
+    versions 1 and 2, whose event IDs are chosen by the sender). -/
 structure PreV2 (sets : List (List Event)) (auth : List Event) : Prop where
   two : 2 ≤ sets.length
   ev : ∀ e, e ∈ sets.flatten ∨ e ∈ auth → EvOK e
-  control : ∀ e, e ∈ sets.flatten ∨ e ∈ auth →
-    PathsShorter (eventMapFromEvents (splitConflictedUnconflicted false sets).1) (fun _ => true)
-      ((eventMapFromEvents (splitConflictedUnconflicted false sets).1).length + 2) e
-  power : ∀ e, e ∈ sets.flatten ∨ e ∈ auth →
-    PathsShorter (eventMapFromEvents auth) isPLEvent ((eventMapFromEvents auth).length + 2) e
 
 theorem unconflictedFirstP_ok {algo : Nat} {am : List Event} {ce : Option Event} {u : List Event} (h : ∀ e ∈ u, EvOK e) :
     ∃ s, unconflictedFirstP algo am ce u = .ok s ∧ ∀ x ∈ s, x.2 ∈ u := by
@@ -393,11 +471,7 @@ theorem resolveV2NewP_ok {algo : Nat} {sets : List (List Event)} {auth : List Ev
     simp only
     split
     · exact ⟨_, rfl⟩
-    · have hcs : controlSetSite (eventMapFromEvents (prepOf algo sets auth).conflicted)
-          (rootsOf ((prepOf algo sets auth).unconflicted.map (·.eventID))
-            ((prepOf algo sets auth).conflicted ++ (prepOf algo sets auth).authDiff)) = .ok () :=
-        controlSetSite_ok (fun r hr => P.control r (hfull r (List.mem_filter.mp hr).1))
-      rw [hcs]
+    · rw [controlSetSite_ok]
       simp only
       obtain ⟨s1, hs1, hs1mem⟩ := unconflictedFirstP_ok (algo := algo) (am := (prepOf algo sets auth).authMap)
         (ce := (prepOf algo sets auth).createEv) (fun e he => P.ev e (Or.inl (hsub.unconf e he)))
@@ -408,14 +482,6 @@ theorem resolveV2NewP_ok {algo : Nat} {sets : List (List Event)} {auth : List Ev
           .ok (tail (prepOf algo sets auth).authMap rej (createFor (prepOf algo sets auth).createEv s1) s1
             (prepOf algo sets auth).controlEvents (prepOf algo sets auth).others) :=
         tailP_ok (fun e he => P.ev e (hsub.control e he)) (fun e he => P.ev e (hsub.others e he))
-          (fun e he => P.power e (hsub.others e he))
-          (by
-            intro pl hpl
-            obtain ⟨x, hx, rfl⟩ := get_mem hpl
-            apply P.power
-            rcases mem_authAndApply hx with h1 | h1
-            · exact Or.inl (hsub.unconf _ (hs1mem x h1))
-            · exact hsub.control _ (reverseTopoAuth_subset _ _ h1))
       rw [ht]
       exact ⟨_, rfl⟩
   obtain ⟨st, hst⟩ := hex
@@ -425,10 +491,6 @@ theorem resolveV2NewP_ok {algo : Nat} {sets : List (List Event)} {auth : List Ev
 
 structure PreV2Old (conflicted unconflicted auth : List Event) : Prop where
   ev : ∀ e, e ∈ conflicted ∨ e ∈ unconflicted ∨ e ∈ auth → EvOK e
-  control : ∀ e, e ∈ conflicted ∨ e ∈ unconflicted ∨ e ∈ auth →
-    PathsShorter (eventMapFromEvents conflicted) (fun _ => true) ((eventMapFromEvents conflicted).length + 2) e
-  power : ∀ e, e ∈ conflicted ∨ e ∈ unconflicted ∨ e ∈ auth →
-    PathsShorter (eventMapFromEvents auth) isPLEvent ((eventMapFromEvents auth).length + 2) e
 
 /-- `resolveV2OldP` with the helper names of `VProofs.StateResStages` -/
 def stagedOldP (conflicted unconflicted auth : List Event) (rej : List ID) : Except Err (List ID) :=
@@ -480,10 +542,7 @@ theorem resolveV2OldP_ok {conflicted unconflicted auth : List Event} (rej : List
       rw [headRoomSite_ok (fun e he => P.ev e (Or.inl he)), headRoomSite_ok (fun e he => P.ev e (Or.inr (Or.inl he))),
         headRoomSite_ok (fun e he => P.ev e (Or.inr (Or.inr he)))]
       simp only
-      have hcs : controlSetSite (eventMapFromEvents conflicted) (rootsOf (unconflicted.map (·.eventID))
-          (conflicted ++ authDifferenceOld (eventMapFromEvents auth) (eventMapFromEvents conflicted))) = .ok () :=
-        controlSetSite_ok (fun r hr => P.control r (hfull r (List.mem_filter.mp hr).1))
-      rw [hcs]
+      rw [controlSetSite_ok]
       simp only
       have hces : ∀ e ∈ (controlIDsOf (eventMapFromEvents conflicted) (rootsOf (unconflicted.map (·.eventID))
             (conflicted ++ authDifferenceOld (eventMapFromEvents auth) (eventMapFromEvents conflicted)))).filterMap
@@ -505,16 +564,7 @@ theorem resolveV2OldP_ok {conflicted unconflicted auth : List Event} (rej : List
         intro e he
         unfold othersOf at he
         exact hfull _ (mem_eventMap (List.mem_filter.mp he).1)
-      rw [tailP_ok (fun e he => P.ev e (hces e he)) (fun e he => P.ev e (hos e he)) (fun e he => P.power e (hos e he))
-        (by
-          intro pl hpl
-          obtain ⟨x, hx, rfl⟩ := get_mem hpl
-          apply P.power
-          rcases mem_authAndApply hx with h1 | h1
-          · rcases mem_applyEvents h1 with h0 | h0
-            · cases h0
-            · exact Or.inr (Or.inl h0)
-          · exact hces _ (reverseTopoAuth_subset _ _ h1))]
+      rw [tailP_ok (fun e he => P.ev e (hces e he)) (fun e he => P.ev e (hos e he))]
       exact ⟨_, rfl⟩
   obtain ⟨r, hr⟩ := hex
   rw [hr, resolveV2OldP_eq hr]
@@ -700,7 +750,7 @@ theorem preV1_of_split {sets : List (List Event)} {auth : List Event}
 
 theorem resolveConflictsNewP_ok {sha : ID → Bytes} {ver : Bytes} {sets : List (List Event)} {auth : List Event} (rej : List ID)
     (hev : ∀ e, e ∈ sets.flatten ∨ e ∈ auth → EvOK e)
-    (hv2 : ∀ row, versionRow? ver = some row → row.stateResAlgorithm ≠ 1 → PreV2 sets auth) :
+    (htwo : ∀ row, versionRow? ver = some row → row.stateResAlgorithm ≠ 1 → 2 ≤ sets.length) :
     resolveConflictsNewP sha ver sets auth rej = .ok (resolveConflictsNew sha ver sets auth rej) := by
   have hex : ∃ r, resolveConflictsNewP sha ver sets auth rej = .ok r := by
     unfold resolveConflictsNewP
@@ -715,21 +765,25 @@ theorem resolveConflictsNewP_ok {sha : ID → Bytes} {ver : Bytes} {sets : List 
         exact ⟨_, rfl⟩
       · rw [if_neg h1]
         split
-        · rw [resolveV2NewP_ok rej (hv2 row hrow (by simpa using h1))]
+        · rw [resolveV2NewP_ok rej ⟨htwo row hrow (by simpa using h1), hev⟩]
           exact ⟨_, rfl⟩
         · exact ⟨_, rfl⟩
   obtain ⟨r, hr⟩ := hex
   rw [hr, resolveConflictsNewP_eq hr]
 
 theorem resolveConflictsOldP_ok {sha : ID → Bytes} {ver : Bytes} {events auth : List Event} (rej : List ID)
-    (hev : ∀ e, e ∈ events ∨ e ∈ auth → EvOK e)
-    (hv2 : ∀ row, versionRow? ver = some row → row.stateResAlgorithm ≠ 1 →
-      PreV2Old (splitConflictedUnconflicted true [events]).1 (splitConflictedUnconflicted true [events]).2 auth) :
+    (hev : ∀ e, e ∈ events ∨ e ∈ auth → EvOK e) :
     resolveConflictsOldP sha ver events auth rej = .ok (resolveConflictsOld sha ver events auth rej) := by
   have hev' : ∀ e, e ∈ [events].flatten ∨ e ∈ auth → EvOK e := by
     intro e he
     apply hev
     simpa using he
+  have hsplit : PreV2Old (splitConflictedUnconflicted true [events]).1 (splitConflictedUnconflicted true [events]).2 auth := by
+    refine ⟨?_⟩
+    rintro e (he | he | he)
+    · exact hev' e (Or.inl (split_sub true [events] (Or.inl he)).1)
+    · exact hev' e (Or.inl (split_sub true [events] (Or.inr he)).1)
+    · exact hev' e (Or.inr he)
   have hex : ∃ r, resolveConflictsOldP sha ver events auth rej = .ok r := by
     unfold resolveConflictsOldP
     cases hrow : versionRow? ver with
@@ -743,7 +797,7 @@ theorem resolveConflictsOldP_ok {sha : ID → Bytes} {ver : Bytes} {events auth 
         exact ⟨_, rfl⟩
       · rw [if_neg h1]
         split
-        · rw [resolveV2OldP_ok rej (hv2 row hrow (by simpa using h1))]
+        · rw [resolveV2OldP_ok rej hsplit]
           exact ⟨_, rfl⟩
         · exact ⟨_, rfl⟩
   obtain ⟨r, hr⟩ := hex
